@@ -27,6 +27,9 @@ type ConcOp struct {
 	Batch []*Query `json:"batch,omitempty"`
 	Key   uint64   `json:"key,omitempty"`
 	Size  int      `json:"size,omitempty"` // put: cardinality of the bitmap
+	// Cancelled: the RPC's context is already cancelled when the handler is entered (a client
+	// that gave up). Such a call may fail; every OTHER call must still be answered correctly.
+	Cancelled bool `json:"cancelled,omitempty"`
 }
 
 type C04Case struct {
@@ -90,11 +93,7 @@ func genC04(c *Ctx) any {
 		// the server's defaults: LRU cache of 50 MiB, optional preload
 		cs.Open.Cache, cs.Open.CacheBytes = "lru", 50<<20
 		// protobuf string fields cannot carry invalid UTF-8
-		for i := range cs.Data.Spec.Cols {
-			if cs.Data.Spec.Cols[i].Kind == "bin" {
-				cs.Data.Spec.Cols[i].Kind = "utf8"
-			}
-		}
+		utf8Spec(cs.Data.Spec)
 	}
 	si := infoOf(cs.Data.Spec.Expand())
 	var pool []*Query
@@ -114,16 +113,24 @@ func genC04(c *Ctx) any {
 			pool = append(pool, &Query{Expr: Or(Not(a.Clone()), b.Clone())})
 		}
 	}
+	cancels := cs.Mode == "grpc" && r.Chance(1, 3)
+	if cancels && len(pool) > 4 {
+		pool = pool[:4]
+	}
 	for t := 0; t < nt; t++ {
 		var ops []ConcOp
 		for i, no := 0, r.Range(3, 12); i < no; i++ {
 			switch {
 			case cs.Mode == "grpc":
 				var batch []*Query
-				for j, nb := 0, r.Range(1, 3); j < nb; j++ {
+				nb := r.Range(1, 3)
+				if cancels {
+					nb = 1 // identical requests in flight become likely
+				}
+				for j := 0; j < nb; j++ {
 					batch = append(batch, pool[r.Intn(len(pool))])
 				}
-				ops = append(ops, ConcOp{Kind: "rpc", Batch: batch})
+				ops = append(ops, ConcOp{Kind: "rpc", Batch: batch, Cancelled: cancels && r.Chance(1, 4)})
 			case r.Chance(1, 6):
 				ops = append(ops, ConcOp{Kind: "schema"})
 			default:
@@ -222,6 +229,8 @@ func runC04(c *Ctx, body json.RawMessage) *Verdict {
 				}
 			}
 		}
+		cancelledCtx, cancelNow := context.WithCancel(context.Background())
+		cancelNow()
 		fns := make([]func(), len(cs.Tasks))
 		for t := range cs.Tasks {
 			t := t
@@ -235,7 +244,11 @@ func runC04(c *Ctx, body json.RawMessage) *Verdict {
 						case "schema":
 							o.schema = idx.GetSchema()
 						case "rpc":
-							o.resp, o.err = srv.Query(context.Background(), reqs[t][i])
+							ctx := context.Background()
+							if op.Cancelled {
+								ctx = cancelledCtx
+							}
+							o.resp, o.err = srv.Query(ctx, reqs[t][i])
 						}
 					})
 					o.done = true
@@ -283,6 +296,12 @@ func runC04(c *Ctx, body json.RawMessage) *Verdict {
 					return v.Violate("wrong-schema", "task %d op %d: %s", t, i, d)
 				}
 			case "rpc":
+				if op.Cancelled {
+					v.Count("fault_rpc_with_cancelled_context", 1)
+					if o.err != nil && o.resp == nil {
+						continue // a client that gave up may be refused
+					}
+				}
 				if d := compareBatch(ref, op.Batch, nil, o.resp, o.err); d != "" {
 					return v.Violate("wrong-rpc-result", "task %d op %d: %s", t, i, d)
 				}
@@ -555,10 +574,21 @@ func genC18(c *Ctx) any {
 		per = 1000/nt + r.Range(1, 20)
 	}
 	vals := []string{"x", "y", "z", "", "ü"}
+	wide := r.Chance(1, 6)  // some rows with hundreds of columns
+	empty := r.Chance(1, 4) // some rows without any column (they cannot carry a tag; ids and the row universe still count them)
 	for t := 0; t < nt; t++ {
 		var rows []Row
 		for k := 0; k < per; k++ {
+			if empty && r.Chance(1, 3) {
+				rows = append(rows, Row{})
+				continue
+			}
 			row := Row{{"tag", S(fmt.Sprintf("t%d_%d", t, k))}}
+			if wide && per <= 20 && r.Chance(1, 4) {
+				for w, nw := 0, r.Range(250, 330); w < nw; w++ {
+					row = append(row, [2]S{S(fmt.Sprintf("w%d", w)), S(vals[w%3])})
+				}
+			}
 			for ci, col := range []string{"a", "b", "c"} {
 				if r.Chance(2, 3) {
 					row = append(row, [2]S{S(col), S(vals[(r.Intn(len(vals))+ci)%len(vals)])})
@@ -731,11 +761,17 @@ func runC18(c *Ctx, body json.RawMessage) *Verdict {
 	}
 	for i := 0; i < len(evs); i += step {
 		row := evs[i].row
+		if len(row) == 0 {
+			continue
+		}
 		tag := string(row[0][1])
 		if d := check(&Query{Expr: Eq("tag", tag)}); d != "" {
 			return v.Violate("row-lost-or-duplicated", "count(tag=%s): %s", tag, d)
 		}
-		for _, kv := range row[1:] {
+		for ki, kv := range row[1:] {
+			if ki > 12 && ki%25 != 0 {
+				continue // wide rows: a sample of their columns
+			}
 			if d := check(&Query{Expr: And(Eq("tag", tag), Eq(string(kv[0]), string(kv[1])))}); d != "" {
 				return v.Violate("row-mixed", "count(tag=%s & %s=%q): %s", tag, kv[0], kv[1], d)
 			}
